@@ -5,21 +5,25 @@
 // that cannot move a record into the filter against a fresh swamp of the real in-process
 // engine, and records per-RPC results, the matching count at every quiescent point and the
 // final records. Four kinds of cases:
-//   table      the four-cell rule, exhaustively over (pre, post, budget in 0..2, existing/created)
-//   seq        random sequential histories (every program runs to completion in turn)
-//   forced     schedules forced through the hook points (capPreCount.counted,
-//              patchExpired.selected, patchExpired.beforeReindex): all interleavings of the
-//              macro steps of 2 threads from a menu + random ones of 3 threads; a release that
-//              does not reach its park point because the goroutine blocks on capMu is recorded
-//              and must be a disabled step of the model
-//   stress     2-6 free-running cap-bearing RPCs of all three kinds + writers; only the
-//              property oracle (count <= max at each quiescent point) applies
+//
+//	table      the four-cell rule, exhaustively over (pre, post, budget in 0..2, existing/created)
+//	seq        random sequential histories (every program runs to completion in turn)
+//	forced     schedules forced through the hook points (capPreCount.counted,
+//	           patchExpired.selected, patchExpired.beforeReindex): all interleavings of the
+//	           macro steps of 2 threads from a menu + random ones of 3 threads; a release that
+//	           does not reach its park point because the goroutine blocks on capMu is recorded
+//	           and must be a disabled step of the model
+//	stress     2-6 free-running cap-bearing RPCs of all three kinds + writers; only the
+//	           property oracle (count <= max at each quiescent point) applies
+//
 // Swamp/Cap.v replays the forced schedule (model = impl?) after evaluating the oracle on the
 // implementation's observations alone.
 package main
 
 import (
 	"fmt"
+	"os"
+	"runtime/pprof"
 	"sort"
 	"strings"
 	"sync"
@@ -495,6 +499,16 @@ func main() {
 	run.Meta.Rule = "a case is non-trivial when a cap-bearing RPC ran and the cap bound something (CAP_EXCEEDED, count reached max), or threads were really interleaved / one blocked on capMu"
 	rng := common.NewRng(args.Seed, "C12")
 	thorough := args.Tier == "thorough"
+	// global watchdog: an engine deadlock (possible on a defective tree) must not stall the check
+	limit := 5 * time.Minute
+	if thorough {
+		limit = 50 * time.Minute
+	}
+	time.AfterFunc(limit, func() {
+		fmt.Fprintln(os.Stderr, "C12 harness: run exceeded", limit, "- the engine hangs (deadlock); goroutine dump follows")
+		pprof.Lookup("goroutine").WriteTo(os.Stderr, 1)
+		os.Exit(3)
+	})
 	e := lib.NewEnv("c12")
 	defer e.Close()
 
@@ -671,4 +685,6 @@ func main() {
 	run.Meta.Traces = run.Meta.Evaluations
 	run.Meta.Extra["blocked_cases"] = nblocked
 	run.Finish("check_all")
+	os.RemoveAll(e.Root)
+	os.Exit(0)
 }
